@@ -83,5 +83,15 @@ CHECKS["C04"] = dict(
          "(not the selected rule's body) is in scope",
     technique="symbolic execution of the dispatcher's Python source over z3 finite sorts with complete path enumeration (solver-checked), plus "
               "exhaustive concrete enumeration of the same lattice as translator validation / replay")
-for _p in ["C05","C06","C07","C09","C10","C11","C16","C17","C18","C19"]:
+CHECKS["C07"] = dict(
+    text="slogdet / logdet executed on structural-rule trees (Diagonal, ScalarMul of every size, Identity, Triangular, permutations of both parities, "
+         "Products of square and non-square factors, Kronecker with unequal factor sizes, BlockDiag with multiplicities, nestings), dense general "
+         "inputs through the pivoted-LU stand-in (every pivot order is a solver-explored path) and dense Hermitian positive definite L L^H "
+         "through Cholesky, real and complex, with log as an uninterpreted function: z3 proves sign * prod a_j^c_j == det (cofactor determinant), "
+         "|sign| = 1 and positivity of the log arguments for all payload values",
+    note=_TB + "; |x| of sign-unknown values is a generator g >= 0, g^2 = x^2 (no sign forks); Lanczos / Arnoldi log algorithms are outside (need an "
+         "eigensolver model), their exact trace is covered by C08",
+    technique="concolic symbolic execution of the Python source with exact rational-function terms, algebraic generators (abs, sqrt) and "
+              "uninterpreted log; z3 decides the residual equalities, pivot-order path flips and positivity side conditions")
+for _p in ["C05","C06","C09","C10","C11","C16","C17","C18","C19"]:
     NA[_p] = "check under construction in this session (not yet registered); see DESIGN.md section 5 for the plan"
